@@ -16,8 +16,9 @@ printed texts as trees up to sibling order and (b) feeds the model a template wh
 is the set order observed in the running Python, or restricts to templates for which the key
 assignment cannot depend on the order.
 
-Modelled text alphabet: ASCII.  `str.strip/split` whitespace = ASCII whitespace of Python
-(`' ' \t \n \r \x0b \x0c \x1c-\x1f`), `upper()/lower()` = ASCII case maps, file iteration splits at
+Modelled text alphabet: Unicode code points for white space (`str.strip/split` use Python's complete
+`str.isspace` set, `isWs`); `upper()/lower()` = ASCII case maps (Python's full Unicode case mapping is outside the
+model: the statements that involve `upper` carry the guard "section titles are ASCII", `asciiStr`), file iteration splits at
 `\n` and `\r` (universal newlines; an extra empty line is skipped like any blank line).
 Not modelled: aliasing of a `settings` list shared between update entries,
 non-string dict values (the harness sends their `str()`).
@@ -55,7 +56,21 @@ def dpop {α : Type} (k : Str) : List (Str × α) → List (Str × α)
 
 /-! ### Python string helpers on `List Char` -/
 
+/-- Python's `str.isspace` on one character — the COMPLETE set (29 code points) that `str.strip()`, `str.split()`
+    use on a `str` read with encoding utf-8: U+0009–000D, 001C–001F, 0020, 0085, 00A0, 1680, 2000–200A, 2028, 2029,
+    202F, 205F, 3000.  (Until the audit of 2026-09-30 this was the ASCII subset: a data line ending in U+00A0 or a
+    keyword containing U+0085 was one stripped token for the model and not for Python — `cp2k_ascii_ws_…` in
+    Props/C19.lean keep the record.) -/
 def isWs (c : Char) : Bool :=
+  c = ' ' || c = '\t' || c = '\n' || c = '\r' || c = '\x0b' || c = '\x0c' ||
+  c = '\x1c' || c = '\x1d' || c = '\x1e' || c = '\x1f' ||
+  c = '\u0085' || c = '\u00a0' || c = '\u1680' ||
+  c = '\u2000' || c = '\u2001' || c = '\u2002' || c = '\u2003' || c = '\u2004' || c = '\u2005' ||
+  c = '\u2006' || c = '\u2007' || c = '\u2008' || c = '\u2009' || c = '\u200a' ||
+  c = '\u2028' || c = '\u2029' || c = '\u202f' || c = '\u205f' || c = '\u3000'
+
+/-- the ASCII subset the model used before (kept for the record theorems only) -/
+def isWsAscii (c : Char) : Bool :=
   c = ' ' || c = '\t' || c = '\n' || c = '\r' || c = '\x0b' || c = '\x0c' ||
   c = '\x1c' || c = '\x1d' || c = '\x1e' || c = '\x1f'
 
@@ -573,9 +588,13 @@ def dataOk (l : Str) : Bool :=
   | c :: _ => !isWs c && c != '&' && (match l.getLast? with | some z => !isWs z | none => false) &&
               l.all (fun x => x != '\n' && x != '\r')
 
+/-- every character is ASCII: on such a title the model's `upper` (ASCII case map) IS Python's `str.upper()`
+    (`'é'.upper() = 'É'`, `'ß'.upper() = 'SS'` are outside the model) -/
+def asciiStr (s : Str) : Bool := s.all (fun c => c.toNat < 128)
+
 mutual
 def Tree.ok : Tree → Bool
-  | .node t s d cs => tokOk t && upper t == t && !startsWithEnd t && s.all tokOk && d.all dataOk && okTs cs
+  | .node t s d cs => tokOk t && asciiStr t && upper t == t && !startsWithEnd t && s.all tokOk && d.all dataOk && okTs cs
 def okTs : List Tree → Bool
   | [] => true
   | c :: cs => c.ok && okTs cs
